@@ -60,6 +60,16 @@ struct btcp_socket
 	    uint16_t remote_port;
 	    struct xcm_dns_query *query;
 
+	    /* a DNS name given as the local address is resolved
+	       alongside the remote name */
+	    struct xcm_dns_query *local_query;
+	    bool has_local_ip;
+	    struct xcm_addr_ip local_ip;
+	    uint16_t local_port;
+
+	    int num_remote_ips;
+	    struct xcm_addr_ip remote_ips[XCM_DNS_MAX_RESULT_SIZE];
+
 	    /* for conn_state_connecting */
 	    struct tconnect *tconnect;
 
@@ -161,7 +171,7 @@ static void assert_conn_socket(struct xcm_socket *s)
 	ut_assert(bts->fd == -1);
 	break;
     case conn_state_resolving:
-	ut_assert(bts->conn.query != NULL);
+	ut_assert(bts->conn.query != NULL || bts->conn.local_query != NULL);
 	break;
     case conn_state_connecting:
 	ut_assert(bts->conn.tconnect != NULL);
@@ -251,6 +261,7 @@ static void deinit(struct xcm_socket *s, bool owner)
 	    xpoll_bell_reg_del(s->xpoll, bts->conn.bell_reg_id);
 
 	xcm_dns_query_destroy(bts->conn.query, owner);
+	xcm_dns_query_destroy(bts->conn.local_query, owner);
 
 	tconnect_destroy(bts->conn.tconnect, owner);
     }
@@ -276,37 +287,18 @@ static int conf_scope(struct xcm_socket *s, int64_t *scope,
 
 static void try_finish_connect(struct xcm_socket *s);
 
-static void begin_connect(struct xcm_socket *s,
-			  const struct xcm_addr_ip *remote_ips,
-			  int num_remote_ips)
+static void begin_connect(struct xcm_socket *s)
 {
     struct btcp_socket *bts = TOBTCP(s);
 
     UT_SAVE_ERRNO;
 
-    struct xcm_addr_ip *local_ip = NULL;
-    uint16_t local_port = 0;
-
-    struct xcm_addr_ip local_ip_data;
-
-    if (strlen(bts->laddr) > 0) {
-	struct xcm_addr_host local_host;
-
-	if (xcm_addr_parse_btcp(bts->laddr, &local_host, &local_port) < 0) {
-	    LOG_CLIENT_BIND_ADDR_ERROR(s, bts->laddr);
-	    goto err;
-	}
-
-	if (xcm_dns_resolve_sync(&local_host, s) < 0)
-	    goto err;
-
-	local_ip = &local_ip_data;
-	*local_ip = local_host.ip;
-    }
-
-    if (tconnect_connect(bts->conn.tconnect, local_ip, local_port, bts->scope,
+    if (tconnect_connect(bts->conn.tconnect,
+			 bts->conn.has_local_ip ? &bts->conn.local_ip : NULL,
+			 bts->conn.local_port, bts->scope,
 			 bts->conn.tcp_connect_timeout, &bts->conn.tcp_opts,
-			 remote_ips, num_remote_ips, bts->conn.remote_port) < 0)
+			 bts->conn.remote_ips, bts->conn.num_remote_ips,
+			 bts->conn.remote_port) < 0)
 	goto err;
 
     try_finish_connect(s);
@@ -323,34 +315,64 @@ err:
     bts->conn.badness_reason = bad_errno;
 }
 
+static void resolution_failed(struct xcm_socket *s, int reason)
+{
+    struct btcp_socket *bts = TOBTCP(s);
+
+    BTCP_SET_STATE(s, conn_state_bad);
+    ut_assert(reason != EAGAIN);
+    ut_assert(reason != 0);
+    bts->conn.badness_reason = reason;
+
+    xcm_dns_query_destroy(bts->conn.query, true);
+    bts->conn.query = NULL;
+    xcm_dns_query_destroy(bts->conn.local_query, true);
+    bts->conn.local_query = NULL;
+}
+
 static void try_finish_resolution(struct xcm_socket *s)
 {
     struct btcp_socket *bts = TOBTCP(s);
 
-    struct xcm_addr_ip remote_ips[XCM_DNS_MAX_RESULT_SIZE];
+    if (bts->conn.local_query != NULL) {
+	UT_SAVE_ERRNO;
+	int rc = xcm_dns_query_result(bts->conn.local_query,
+				      &bts->conn.local_ip, 1);
+	UT_RESTORE_ERRNO(query_errno);
 
-    UT_SAVE_ERRNO;
-    int rc = xcm_dns_query_result(bts->conn.query, remote_ips,
-				  XCM_DNS_MAX_RESULT_SIZE);
-    UT_RESTORE_ERRNO(query_errno);
-
-    if (rc < 0) {
-	if (query_errno == EAGAIN)
+	if (rc < 0) {
+	    if (query_errno != EAGAIN)
+		resolution_failed(s, query_errno);
 	    return;
+	}
 
-	BTCP_SET_STATE(s, conn_state_bad);
-	ut_assert(query_errno != EAGAIN);
-	ut_assert(query_errno != 0);
-	bts->conn.badness_reason = query_errno;
-    } else {
-	ut_assert(rc > 0);
+	bts->conn.has_local_ip = true;
 
-	BTCP_SET_STATE(s, conn_state_connecting);
-	begin_connect(s, remote_ips, rc);
+	xcm_dns_query_destroy(bts->conn.local_query, true);
+	bts->conn.local_query = NULL;
     }
 
-    xcm_dns_query_destroy(bts->conn.query, true);
-    bts->conn.query = NULL;
+    if (bts->conn.query != NULL) {
+	UT_SAVE_ERRNO;
+	int rc = xcm_dns_query_result(bts->conn.query, bts->conn.remote_ips,
+				      XCM_DNS_MAX_RESULT_SIZE);
+	UT_RESTORE_ERRNO(query_errno);
+
+	if (rc < 0) {
+	    if (query_errno != EAGAIN)
+		resolution_failed(s, query_errno);
+	    return;
+	}
+
+	ut_assert(rc > 0);
+	bts->conn.num_remote_ips = rc;
+
+	xcm_dns_query_destroy(bts->conn.query, true);
+	bts->conn.query = NULL;
+    }
+
+    BTCP_SET_STATE(s, conn_state_connecting);
+    begin_connect(s);
 }
 
 static void try_finish_connect(struct xcm_socket *s)
@@ -404,7 +426,10 @@ static void try_establish(struct xcm_socket *s)
 
     switch (bts->conn.state) {
     case conn_state_resolving:
-	xcm_dns_query_process(bts->conn.query);
+	if (bts->conn.local_query != NULL)
+	    xcm_dns_query_process(bts->conn.local_query);
+	if (bts->conn.query != NULL)
+	    xcm_dns_query_process(bts->conn.query);
 	try_finish_resolution(s);
 	break;
     case conn_state_connecting:
@@ -453,16 +478,43 @@ static int btcp_connect(struct xcm_socket *s, const char *remote_addr)
     if (bts->conn.tconnect == NULL)
 	goto err;
 
+    if (strlen(bts->laddr) > 0) {
+	struct xcm_addr_host local_host;
+
+	if (xcm_addr_parse_btcp(bts->laddr, &local_host,
+				&bts->conn.local_port) < 0) {
+	    LOG_CLIENT_BIND_ADDR_ERROR(s, bts->laddr);
+	    goto err;
+	}
+
+	if (local_host.type == xcm_addr_type_name) {
+	    bts->conn.local_query =
+		xcm_dns_resolve(local_host.name, s->xpoll,
+				bts->conn.dns_opts.timeout, s);
+	    if (bts->conn.local_query == NULL)
+		goto err;
+	} else {
+	    bts->conn.local_ip = local_host.ip;
+	    bts->conn.has_local_ip = true;
+	}
+    }
+
     if (remote_host.type == xcm_addr_type_name) {
-	BTCP_SET_STATE(s, conn_state_resolving);
 	bts->conn.query =
 	    xcm_dns_resolve(remote_host.name, s->xpoll,
 			    bts->conn.dns_opts.timeout, s);
 	if (bts->conn.query == NULL)
 	    goto err;
     } else {
+	bts->conn.remote_ips[0] = remote_host.ip;
+	bts->conn.num_remote_ips = 1;
+    }
+
+    if (bts->conn.query != NULL || bts->conn.local_query != NULL)
+	BTCP_SET_STATE(s, conn_state_resolving);
+    else {
 	BTCP_SET_STATE(s, conn_state_connecting);
-	begin_connect(s, &remote_host.ip, 1);
+	begin_connect(s);
     }
 
     try_establish(s);
@@ -728,7 +780,10 @@ static void conn_update(struct xcm_socket *s)
 
     switch (bts->conn.state) {
     case conn_state_resolving:
-	ready = xcm_dns_query_completed(bts->conn.query);
+	ready = (bts->conn.query == NULL ||
+		 xcm_dns_query_completed(bts->conn.query)) &&
+	    (bts->conn.local_query == NULL ||
+	     xcm_dns_query_completed(bts->conn.local_query));
 	break;
     case conn_state_connecting:
 	break;
